@@ -41,6 +41,7 @@ func main() {
 	listJSON := flag.Bool("list-json", false, "print {property: what its rules decide} as JSON")
 	disc := flag.Bool("discover-locks", false, "development aid: print field/lock co-occurrence statistics")
 	dbg := flag.String("debug-explore", "", "development aid: run the bare explorer on a function spec")
+	selftest := flag.String("selftest", "", "thorough tier: log of tools/selftest.sh for this property; its verdicts become part of the evidence")
 	flag.Parse()
 	if *disc {
 		discoverLocks(*repo)
@@ -84,6 +85,9 @@ func main() {
 	r.Explan = d.explain
 	r.Assume = append(r.Assume, d.assume...)
 	r.Assume = append(r.Assume, "static analysis of /repo's working tree only: nothing is executed; a pass is a necessary condition of the property, not the property")
+	if *selftest != "" {
+		mergeSelftest(r, *selftest)
+	}
 	code := runProp(d, r, *repo, *tier, *verif)
 	os.Exit(code)
 }
@@ -124,4 +128,56 @@ func runProp(d *propDef, r *Report, repo, tier, verif string) (code int) {
 		d.run(p, r)
 	}
 	return r.Finish(verif)
+}
+
+// mergeSelftest reads the log of tools/selftest.sh <prop> (seeded changes and
+// mutants applied one at a time to scratch copies of the repository, each
+// analysed by this same checker) and records how the check did: a breaking
+// change it does not report, or a behaviour-preserving variant it reports, make
+// the check undecided (exit 3) - the checker is then not to be believed.
+func mergeSelftest(r *Report, path string) {
+	b, err := os.ReadFile(path)
+	if err != nil {
+		r.Undecided("selftest", "log", err.Error())
+		return
+	}
+	caught, missed, silent, alarm, skipped := 0, 0, 0, 0, 0
+	var bad []string
+	for _, l := range strings.Split(string(b), "\n") {
+		f := strings.Fields(l)
+		if len(f) < 2 || (f[0] != "SEEDED" && f[0] != "MUTANT" && f[0] != "VARIANT") {
+			continue
+		}
+		if strings.Contains(l, "PATCH-DOES-NOT-APPLY") || strings.Contains(l, "DOES-NOT-COMPILE") {
+			skipped++
+			continue
+		}
+		rc := ""
+		for _, w := range f {
+			if strings.HasPrefix(w, "exit=") {
+				rc = strings.TrimPrefix(w, "exit=")
+			}
+		}
+		switch {
+		case f[0] == "VARIANT" && rc == "0":
+			silent++
+		case f[0] == "VARIANT":
+			alarm++
+			bad = append(bad, "alarm on variant "+f[1])
+		case rc == "1":
+			caught++
+		default:
+			missed++
+			bad = append(bad, "not reported: "+f[0]+" "+f[1]+" (exit "+rc+")")
+		}
+	}
+	r.Counts["selftest breaking changes reported"] = caught
+	r.Counts["selftest breaking changes missed"] = missed
+	r.Counts["selftest variants silent"] = silent
+	r.Counts["selftest variants alarmed"] = alarm
+	r.Counts["selftest patches skipped (no longer apply)"] = skipped
+	r.Note("self-test: %d seeded changes / mutants reported, %d missed; %d behaviour-preserving variants silent, %d alarmed; %d skipped", caught, missed, silent, alarm, skipped)
+	if len(bad) > 0 {
+		r.Undecided("selftest", "checker validation", strings.Join(bad, "; "))
+	}
 }
